@@ -4,9 +4,9 @@
 use super::hist::*;
 use super::*;
 
-pub const KINDS: [&str; 12] = ["random", "sorted", "reverse", "eqprefix", "bigkeys", "binkeys", "emptyleaf", "hint", "update", "halfpage", "sepdup", "intfull"];
+pub const KINDS: [&str; 13] = ["random", "sorted", "reverse", "eqprefix", "bigkeys", "binkeys", "emptyleaf", "hint", "update", "halfpage", "sepdup", "intfull", "hugekeys"];
 
-pub const DIRECTED: [&str; 6] = ["emptyleaf", "hint", "update", "halfpage", "sepdup", "intfull"];
+pub const DIRECTED: [&str; 7] = ["emptyleaf", "hint", "update", "halfpage", "sepdup", "intfull", "hugekeys"];
 
 pub struct Ran {
     pub hist: History,
@@ -174,6 +174,18 @@ fn generate_intfull(rng: &mut Rng, track: bool) -> Ran {
 
 pub fn generate_t(rng: &mut Rng, kind: &str, budget: usize, track: bool) -> Ran {
     if kind == "intfull" { return generate_intfull(rng, track); }
+    if kind == "hugekeys" {
+        // keys of about half a page: one cell per leaf, one separator (or none) per interior page
+        let n = 5 + rng.below(6) as usize;
+        let keys: Vec<KeySpec> = (0..n).map(|i| KeySpec { pfx: vec![0x41, (i + 1) as u8], fill: 97, n: 8100 + rng.below(150) as usize, sfx: vec![] }).collect();
+        let mut r = Runner::new(kind, keys);
+        r.track = track;
+        let mut order: Vec<usize> = (0..n).collect();
+        if rng.chance(1, 2) { for i in (1..n).rev() { let j = rng.below(i as u64 + 1) as usize; order.swap(i, j); } }
+        for k in order { let t = r.tag(); if !r.mutate(Op::Ins(k, Val { len: rng.below(20) as u32, tag: t })) { break; } }
+        r.push(Op::Fwd(5000)); r.push(Op::Bwd(5000));
+        return r.finish();
+    }
     let n_keys = match kind { "bigkeys" => 20 + rng.below(50) as usize, "halfpage" => 4 + rng.below(8) as usize, _ => 30 + rng.below(170) as usize };
     let keys = universe(rng, kind, n_keys);
     let nk = keys.len();
